@@ -116,6 +116,25 @@ def generate(g, tier):
         if kind == 'str1' and MODS.get(cmd, {}).get('single_char', True): forms.append(f'REPEAT i,12\n    ${cmd} i')
         for t in forms:
             cases.append(dict(op='compile', src=dict(text=t), meta=dict(family='revalidate')))
+    # validation is per occurrence: a value accepted EARLIER in the same compilation never vouches for a later one that is merely
+    # equal to it in the host language but of another type or spelling (1 / TRUE, 0 / FALSE, 1 / 1.0, "5" / 5, "a" / "A") — on separate
+    # lines, in separate blocks, iterations and calls, in either order
+    TWINS_INT = [('1', 'TRUE'), ('0', 'FALSE'), ('1', '1==1'), ('0', '1==2'), ('1', '(2>1)'), ('2', '2.5'), ('7', '"7"')]
+    TWINS_STR = [('"a"', '"ab"'), ('"F4"', '"F44"'), ('"1"', '"11"'), ('"esc"', '"escx"')]
+    for _ in range(count(tier, 80, 800)):
+        cmd = r.choice(sorted(DELAYS)) if g.chance(0.7) else r.choice([c for c in VALIDATED if c not in NOARG and c not in DELAYS])
+        good, bad = r.choice(TWINS_INT if cmd in DELAYS else TWINS_STR)
+        d = '$' if cmd not in DELAYS or g.chance(0.5) else ''
+        mid = r.choice(['', 'STRING between\n', 'VAR z 1\n', 'IF TRUE\n    STRING x\n'])
+        forms = [f'{d}{cmd} {good}\n{mid}{d}{cmd} {bad}',
+                 f'{d}{cmd} {good}\n{mid}IF TRUE\n    {d}{cmd} {bad}',
+                 f'REPEAT 1\n    {d}{cmd} {good}\n{mid}REPEAT 1\n    {d}{cmd} {bad}',
+                 f'FUNC f\n    {d}{cmd} {good}\nFUNC h\n    {d}{cmd} {bad}\nRUN f\n{mid}RUN h',
+                 f'VAR v {good}\n${cmd} v\n{mid}VAR w {bad}\n${cmd} w',
+                 f'{d}{cmd} {good}\n{mid}WHILE w,w<1\n    {d}{cmd} {bad}']
+        if cmd in DELAYS: forms.append(f'REPEAT i,3\n    ${cmd} i\n{mid}${cmd} {bad}')
+        for t in forms:
+            cases.append(dict(op='compile', src=dict(text=t), meta=dict(family='twins')))
     # one, two or three leading `$`: only the single `$` form is the evaluated command; the others are unknown words
     for _ in range(count(tier, 60, 600)):
         cmd = r.choice(VALIDATED + ['STRING', 'STRINGLN', 'REM', 'ALTSTRING'])
